@@ -2,7 +2,7 @@ SPECIFICATION Spec
 CONSTANTS
   SizesC <- SizesSmall
   NBC = 4
-  Times = {1, 2, 5, 14, 17, 21, 33, 50, 61, 66, 97}
+  Times = {1, 2, 4, 5, 8, 12, 16, 17, 20, 21, 33, 48, 61, 97}
   MaxOps = 3
   Repaired = TRUE
 INVARIANTS TotalOK WindowsOK RangeOK LatestOK
